@@ -131,9 +131,11 @@ type rWorld struct {
 	keepalives  int
 	noSleep     bool
 	viol        []map[string]any
-	monitorOnly bool    // a trace outside the model's op language (slow source): monitors only, no correspondence
-	seq         int     // op sequence number
-	maxHigh     []int64 // per source: largest exclusive high of an EMPTY batch so far (only those travel on as watermark messages: broadcast or replay)
+	monitorOnly bool          // a trace outside the model's op language (timing bursts): monitors only, no correspondence
+	burst       bool          // burst trace: no virtual time passes after an op unless it is `nap <ms>`
+	napFor      time.Duration // the next settle sleeps this long instead of 1.3 s
+	seq         int           // op sequence number
+	maxHigh     []int64       // per source: largest exclusive high of an EMPTY batch so far (only those travel on as watermark messages: broadcast or replay)
 }
 
 func wfFor(n int32, want int32) string {
@@ -195,7 +197,11 @@ func (w *rWorld) settle() {
 			return // a held Send would also hold the keep-alive ticker branch; time stands still while a gate is closed
 		}
 	}
-	time.Sleep(1300 * time.Millisecond)
+	d := 1300 * time.Millisecond
+	if w.napFor > 0 {
+		d, w.napFor = w.napFor, 0
+	}
+	time.Sleep(d)
 	synctest.Wait()
 	for t, ti := range w.tgt {
 		if ti == nil {
@@ -619,6 +625,8 @@ func (w *rWorld) exec(op string) (string, string) {
 		if ti := w.tgt[int(n(1))]; ti != nil {
 			ti.stream.SetGate(f[2] == "1")
 		}
+	case "nap": // burst traces: this much virtual time passes (less than a ticker period, or more)
+		w.napFor = time.Duration(n(1)) * time.Millisecond
 	case "sgate": // the SOURCE cluster stops / resumes reading what the proxy sends it on stream s: the proxy's Send of an ack blocks
 		if cs := w.srcCli[int(n(1))]; cs != nil {
 			cs.SetGate(f[2] == "1")
@@ -645,6 +653,9 @@ func (w *rWorld) exec(op string) (string, string) {
 		}
 	default:
 		w.t.Fatalf("bad routing op %q", op)
+	}
+	if w.burst && f[0] != "nap" {
+		w.noSleep = true // operations of a burst follow each other within one instant
 	}
 	w.settle()
 	return w.observe()
@@ -681,7 +692,8 @@ func runRoutingTrace(t *testing.T, e *Env, begin string, next func(w *rWorld, i 
 		ns, _ := strconv.Atoi(f[1])
 		nt, _ := strconv.Atoi(f[2])
 		w := newRWorld(t, ns, nt)
-		w.monitorOnly = len(f) > 5 && f[5] == "slowsrc"
+		w.monitorOnly = len(f) > 5 && (f[5] == "slowsrc" || f[5] == "burst")
+		w.burst = len(f) > 5 && f[5] == "burst"
 		if w.monitorOnly {
 			e.Emit("# "+begin, "#")
 		} else {
@@ -721,7 +733,7 @@ func runRoutingTrace(t *testing.T, e *Env, begin string, next func(w *rWorld, i 
 		}
 		e.Dist["keepalives_filtered"] += w.keepalives
 		if w.monitorOnly {
-			e.Count("trace_slow_source_monitor_only")
+			e.Count("trace_monitor_only")
 		} else if w.faults {
 			e.Count("trace_with_faults")
 		} else {
